@@ -115,6 +115,18 @@ def c03_cells(tier="quick"):
             cells.append((f"ScheduleN1.{mode}.n{n}", base(H, [fx("t0", 2), fx("t1", 1)], constraints=[
                 {"id": "c", "kind": "ScheduleNTasksInTimeIntervals", "tasks": ["t0"], "n": n,
                  "intervals": [[0, 3]], "mode": mode}])))
+    # precedence between task groups
+    for mode in ("lax", "strict"):
+        for off in (0, 1):
+            cells.append((f"GroupPrecedence.{mode}.o{off}", base(5, [fx("t0", 1), fx("t1", 1), fx("t2", 1, optional=True)],
+                                                                 constraints=[
+                {"id": "g1", "kind": "UnorderedTaskGroup", "tasks": ["t0", "t2"]},
+                {"id": "g2", "kind": "UnorderedTaskGroup", "tasks": ["t1"], "interval": [1, 5]},
+                {"id": "c", "kind": "TaskPrecedence", "before": {"group": "g1"}, "after": {"group": "g2"}, "offset": off,
+                 "mode": mode}])))
+    cells.append(("GroupPrecedence.task_then_group", base(5, [fx("t0", 2), fx("t1", 1), vr("t2", 1, 2)], constraints=[
+        {"id": "g2", "kind": "OrderedTaskGroup", "tasks": ["t1", "t2"], "length": 4, "mode": "lax"},
+        {"id": "c", "kind": "TaskPrecedence", "before": "t0", "after": {"group": "g2"}, "offset": 0, "mode": "strict"}])))
     H3 = 4
     for tag, mk in TRIPLES:
         cells.append((f"TasksContiguous3.{tag}", base(H3, mk(), constraints=[
